@@ -120,8 +120,34 @@ def verify_doc(args):
     if 'int uscxml_step(' not in ctext:
         res.update(status='skip', skip='no step function emitted')
         return res
+    # the top machine, then the machines nested in <invoke><content> (each validated like a document of its own)
+    res = verify_machine(res, name, path, wd, base, cfile, ctext, 0, None)
+    if res['status'] == 'ok':
+        try:
+            nested = docfacts.nested_machines(path)
+        except docfacts.DocError:
+            nested = None
+        nm = res['info'].get('machines_in_file', 1)
+        res['nested'] = []
+        if nm > 1:
+            if nested is None or len(nested) != nm - 1:
+                res['nested_skipped'] = 'file has %d machines; nested ones not validated (src= invokes or deeper nesting)' % nm
+            else:
+                for k, el in enumerate(nested, 1):
+                    sub = {'name': '%s#%d' % (name, k), 'path': path, 'status': 'ok', 'reason': '', 'tables': None, 'step': None, 'info': {}, 'skip': None}
+                    sub = verify_machine(sub, sub['name'], path, wd, '%s_m%d' % (base, k), cfile, ctext, k, el)
+                    sub.pop('nested', None)
+                    res['nested'].append(sub)
+    res['wall_s'] = round(time.time() - t0, 1)
+    if not os.environ.get('VERIF_KEEP'):
+        for f in glob.glob(os.path.join(wd, base + '.*.gb')):
+            os.remove(f)
+    return res
+
+
+def verify_machine(res, name, path, wd, base, cfile, ctext, index, root):
     try:
-        facts, info = docfacts.facts_c(path, ctext)
+        facts, info = docfacts.facts_c(path, ctext, index, root)
     except docfacts.DocError as e:
         res.update(status='skip', skip='document/emitted correspondence not established: %s' % e)
         return res
@@ -129,7 +155,7 @@ def verify_doc(args):
     ffile = os.path.join(wd, base + '.facts.h')
     open(ffile, 'w').write(facts)
     n, t = info['states'], info['transitions']
-    nb, tb = (n + 7) // 8, max(1, (t + 7) // 8)
+    nb, tb = (n + 7) // 8, (t + 7) // 8   # bytes this machine's step function actually clears / uses
     m = re.search(r'#\s*define\s+USCXML_MAX_NR_STATES_BYTES\s+(\d+)', ctext)
     m2 = re.search(r'#\s*define\s+USCXML_MAX_NR_TRANS_BYTES\s+(\d+)', ctext)
     if not m or not m2:
@@ -137,6 +163,8 @@ def verify_doc(args):
         return res
     NB, TB = int(m.group(1)), int(m2.group(1))
     defines = {'GENC_FILE': '"%s"' % cfile, 'DOC_FACTS': '"%s"' % ffile}
+    if index > 0:
+        defines['USCXML_MACHINE'] = info['prefix'] + '_machine'
     harness = os.path.join(HERE, 'harness_doc.c')
     # ---- tables (C05 + wf facts): plain evaluation
     K = max(n, t, 8 * NB, 8 * TB) + 4
@@ -159,7 +187,8 @@ def verify_doc(args):
     d2 = dict(defines, STEP_CONTRACT=None)
     if nested:
         d2['SKIP_HIST'] = None
-    inv, assigns = step_loop_contract(NB, TB, info['prefix'])
+    inv, assigns = step_loop_contract(nb, tb, info['prefix'])
+    assigns[-1] = '__CPROVER_object_upto(ctx->invocations, %d)' % NB
     lc = {"functions": [{"uscxml_step": [{
         "loop_id": "GOTO", "assigns": ", ".join(assigns), "invariants": " && ".join(inv),
         "symbol_map": "ctx,uscxml_step::ctx;i,uscxml_step::1::i;conflicts,uscxml_step::1::conflicts;exit_set,uscxml_step::1::exit_set;target_set,uscxml_step::1::target_set;trans_set,uscxml_step::1::trans_set"}]}]}
@@ -167,10 +196,6 @@ def verify_doc(args):
     parts = verify_step(base, wd, harness, d2, l_inv, l_sel, l_goto, l_label, lc, n, t, NB, TB, name)
     res['step'] = {k: slim(v) for k, v in parts.items()}
     res['nested_history'] = nested
-    res['wall_s'] = round(time.time() - t0, 1)
-    if not os.environ.get('VERIF_KEEP'):
-        for f in glob.glob(os.path.join(wd, base + '.*.gb')):
-            os.remove(f)
     return res
 
 
